@@ -405,10 +405,13 @@ def replay_vector(ctx, rec, k, report):
                     for what, got, want in scal:
                         if (got != float(fr(want))) if ex else not approx(got, float(fr(want)), unit * unit):
                             report("vector3:%s" % what, dict(detail, observed=repr(got)))
-                    if (v == b) is not op["eq"] or (v != b) is op["eq"] or (v == V3(*before)) is not True or (v != V3(*before)) is not False:
+                    eq_decidable = exact_state or not op["eq"]
+                    if (eq_decidable and ((v == b) is not op["eq"] or (v != b) is op["eq"])) \
+                            or (v == V3(*before)) is not True or (v != V3(*before)) is not False:
                         report("vector3:eq-ne", detail)
                     # "vector3 is non-zero if its magnitude (r) is not 0"
-                    if bool(v) is not op["nonzero"]:
+                    # (after inexact float operations an exact zero of the model may be 1e-16 in the code: undecidable)
+                    if (exact_state or op["nonzero"]) and bool(v) is not op["nonzero"]:
                         report("vector3:truth-value:%s" % ("zero" if not op["nonzero"] else "nonzero"),
                                dict(detail, observed=bool(v)))
                     for cmp_name, cmp in (("<", lambda: v < b), ("<=", lambda: v <= b), (">", lambda: v > b), (">=", lambda: v >= b)):
